@@ -23,13 +23,22 @@ func steps(r *sim.R, quick, thorough int) int {
 
 // Lookup returns the engine for a property id, or nil.
 func Lookup(prop string) Engine {
-	if f, ok := world.Flavours[prop]; ok {
+	if f, ok := world.Flavours[prop]; ok && prop != "C14" {
 		return func(r *sim.R) { world.Run(r, f, steps(r, 12, 30)) }
 	}
 	switch prop {
 	case "C19":
 		return func(r *sim.R) { flags.Run(r, steps(r, 8, 14)) }
-	case "C13", "C14", "C04":
+	case "C14":
+		// E3's fault enumeration, and a slice of E1 rich in failing reads after element-moving histories
+		return func(r *sim.R) {
+			if r.T.Weighted([]int{3, 1}, "c14-family") == 0 {
+				unpack.Run(r, prop)
+			} else {
+				world.Run(r, world.Flavours["C14"], steps(r, 12, 30))
+			}
+		}
+	case "C13", "C04":
 		return func(r *sim.R) { unpack.Run(r, prop) }
 	case "C07":
 		return func(r *sim.R) { hostile.Run(r) }
